@@ -38,7 +38,10 @@ def apply(m, root):
         n = s.count(e['old'])
         if n != e.get('count', 1):
             raise RuntimeError('%s: %r found %d times in %s' % (m['id'], e['old'], n, e['file']))
-        open(path, 'w').write(s.replace(e['old'], e['new']))
+        s = s.replace(e['old'], e['new'])
+        if e.get('pre'):
+            s = e['pre'] + s
+        open(path, 'w').write(s)
 
 
 def run_suite(root):
